@@ -191,6 +191,9 @@ def yadrenko(ctx, rule="R02.3"):
 
 
 def run(ctx):
+    from .C13 import pair_agreement
+
+    pair_agreement(ctx, rule="R02.6")  # the Yadrenko construction needs the exact great-circle -> chord map on the whole sphere: shared with C13
     from .C03 import gamma_recurrence
 
     gamma_recurrence(ctx, rule="R02.5")
